@@ -102,7 +102,7 @@ def _main():
                 vals, scales = draw(nf_ref)
                 ratios = [float(x) for x in rng.uniform(0.5, 2.0, size=3)] if nf_ref in (4, 5) else [1.0, 1.0, 1.0]
                 xif = float(rng.uniform(0.5, 2.0)) if k % 3 == 0 else 1.0
-                name = f"C18.bounded.fixed_point[nfref={nf_ref},order={order},{method.value},ratios={'random' if ratios != [1.0] * 3 else 'unit'},xif={xif:.2f}]"
+                name = f"C18.bounded.fixed_point[nfref={nf_ref},order={order},{method.value},ratios={'random' if ratios != [1.0] * 3 else 'unit'},xif={'random' if xif != 1.0 else 'unit'}]"
                 try:
                     fixed_points((vals, scales, nf_ref, order, method, ratios, xif))
                     emit(name, True)
